@@ -199,6 +199,17 @@ func c05Malformed(sp *spec.Spec, m *spec.Method, ex *rt.Exchange) *Verdict {
 		v.add(mkKey("panic", "panic:"+panicSite(ex.Panic)+":"+c.Class, "", Explain(sp, m, c.Sent)), "panic on a malformed request: %s", firstLine(ex.Panic))
 		return v
 	}
+	if c.Sent != nil && m.Payload != nil {
+		var bviol []Violation
+		var bund []string
+		Validate(sp, m.Payload.Type, m.Payload.Val, c.Sent, "", &bviol, &bund, 0)
+		for _, vi := range bviol {
+			if !(vi.Rule == "required" && strings.Count(vi.Path, ".") == 1) {
+				v.Inconclusive = "case generator produced a base payload that does not satisfy the design"
+				return v
+			}
+		}
+	}
 	tags := mergeTags(Explain(sp, m, c.Sent), siteTags(sp, m, m.Payload, "", true))
 	if ex.StubIn != nil {
 		v.add(mkKey("leaked", "malformed-request-reached-stub", c.Class, tags), "malformed request (%s) reached user code", c.Class)
